@@ -87,7 +87,8 @@ def main():
     out_dir = os.path.join(VERIF, 'seeded', sid)
     os.makedirs(out_dir, exist_ok=True)
     for f in ('patch.diff', 'demo.py'):
-        shutil.copy(os.path.join(d, f), os.path.join(out_dir, f))
+        if os.path.abspath(d) != os.path.abspath(out_dir):
+            shutil.copy(os.path.join(d, f), os.path.join(out_dir, f))
     meta['verification'] = res
     meta['ran'] = ['git worktree of /repo HEAD + patch.diff',
                    'baseline in patched tree: ' + res.get('baseline', ''),
